@@ -43,6 +43,10 @@ pub enum Op {
     LoggerLevel { level: u8 },
     /// the process environment changes: every variable the library may ask for gets a new answer
     EnvChange,
+    /// parse subjects `a` and `b` (may be the same), compare the trees with `==`, and compile both
+    /// under a clock that stands still: results the library calls equal must compile to the same
+    /// program and table
+    Compare { a: usize, b: usize },
 }
 
 impl Op {
@@ -60,6 +64,7 @@ impl Op {
             Op::NewEpoch => "NewEpoch",
             Op::LoggerLevel { .. } => "LoggerLevel",
             Op::EnvChange => "EnvChange",
+            Op::Compare { .. } => "Compare",
         }
     }
 
@@ -78,6 +83,7 @@ impl Op {
             Op::NewEpoch => json!({"op":"NewEpoch"}),
             Op::LoggerLevel { level } => json!({"op":"LoggerLevel","level":level}),
             Op::EnvChange => json!({"op":"EnvChange"}),
+            Op::Compare { a, b } => json!({"op":"Compare","a":a,"b":b}),
         }
     }
 
@@ -116,6 +122,7 @@ impl Op {
             "NewEpoch" => Op::NewEpoch,
             "LoggerLevel" => Op::LoggerLevel { level: us("level")? as u8 },
             "EnvChange" => Op::EnvChange,
+            "Compare" => Op::Compare { a: us("a")?, b: us("b")? },
             other => return Err(format!("unknown op {other}")),
         })
     }
@@ -230,6 +237,19 @@ pub enum Obs {
     Rendered { slot: usize, path: usize, text: String, clock_reads: usize },
     IoMapped { slot: usize, table: Table },
     Panicked { what: &'static str, subj_or_slot: usize, message: String },
+    /// two parse results compared with `==` and compiled under a clock that stands still
+    Compared {
+        a: usize,
+        b: usize,
+        /// both texts parsed
+        parsed: bool,
+        trees_equal: bool,
+        options_equal: bool,
+        dumps_equal: bool,
+        /// rendered programs (or error texts) and tables of the two
+        outcome_a: Option<(Result<String, String>, Table)>,
+        outcome_b: Option<(Result<String, String>, Table)>,
+    },
     /// environment-only operations and ops on empty slots
     Nothing,
 }
@@ -384,6 +404,7 @@ enum Job {
     Render { slot: usize, path_idx: usize, compiled: Arc<Handoff<Compiled>>, path: String },
     IoMap { slot: usize, compiled: Arc<Handoff<Compiled>> },
     Unrelated { texts: Vec<String>, script: Vec<i64> },
+    Compare { a: usize, b: usize, text_a: String, text_b: String },
     Stop,
 }
 
@@ -552,6 +573,29 @@ fn caller_thread(env: Env, hash_key: u64, jobs: Receiver<Job>, replies: Sender<R
                     Err(p) => Obs::Panicked { what: "io_map", subj_or_slot: slot, message: panic_message(p) },
                 });
             }
+            Job::Compare { a, b, text_a, text_b } => {
+                let entry = begin_call(&env, &[]);
+                let r = catch_unwind(AssertUnwindSafe(|| {
+                    let (pa, pb) = (parse(&text_a), parse(&text_b));
+                    let (Ok((oa, ta)), Ok((ob, tb))) = (pa, pb) else {
+                        return Obs::Compared { a, b, parsed: false, trees_equal: false, options_equal: false, dumps_equal: false, outcome_a: None, outcome_b: None };
+                    };
+                    let trees_equal = ta == tb;
+                    let options_equal = format!("{oa:?}") == format!("{ob:?}");
+                    let dumps_equal = format!("{ta:?}") == format!("{tb:?}");
+                    let outcome = |t: &lipe_find_parser::ast::Expression, o: &lipe_find_parser::RunOptions| match compile_tree(t, o) {
+                        Ok(c) => (Ok(c.scheme(FIXED_PATH)), c.table()),
+                        Err(e) => (Err(e), None),
+                    };
+                    let (outcome_a, outcome_b) = if trees_equal && options_equal { (Some(outcome(&ta, &oa)), Some(outcome(&tb, &ob))) } else { (None, None) };
+                    Obs::Compared { a, b, parsed: true, trees_equal, options_equal, dumps_equal, outcome_a, outcome_b }
+                }));
+                let _ = end_call(&env, entry);
+                reply.obs.push(match r {
+                    Ok(o) => o,
+                    Err(p) => Obs::Panicked { what: "compare", subj_or_slot: a, message: panic_message(p) },
+                });
+            }
             Job::Unrelated { texts, script } => {
                 let entry = begin_call(&env, &script);
                 for t in &texts {
@@ -692,6 +736,13 @@ pub fn execute(sc: &Scenario) -> Outcome {
             _ => {}
         }
         let job = match op {
+            Op::Compare { a, b } => match (sc.subjects.get(*a), sc.subjects.get(*b)) {
+                (Some(ta), Some(tb)) => Job::Compare { a: *a, b: *b, text_a: ta.clone(), text_b: tb.clone() },
+                _ => {
+                    obs.push((idx, Obs::Nothing));
+                    continue;
+                }
+            },
             Op::Parse { subj } => match sc.subjects.get(*subj) {
                 Some(t) => Job::Parse { subj: *subj, text: t.clone() },
                 None => {
